@@ -6,7 +6,7 @@ use crate::evaluate::simple_evaluator::SimpleEvaluator;
 use crate::evaluate::Evaluator;
 use std::io::Write;
 
-pub const SEEDS: [&str; 40] = [
+pub const SEEDS: [&str; 50] = [
     "rnbqkbnr/pppppppp/8/8/8/8/PPPPPPPP/RNBQKBNR w KQkq - 0 1",
     "r3k2r/p1ppqpb1/bn2pnp1/3PN3/1p2P3/2N2Q1p/PPPBBPPP/R3K2R w KQkq - 0 1",
     "8/2p5/3p4/KP5r/1R3p1k/8/4P1P1/8 w - - 0 1",
@@ -47,6 +47,17 @@ pub const SEEDS: [&str; 40] = [
     "n1n5/PPPk4/8/8/8/8/4Kppp/5N1N b - - 0 1",
     "6b1/r1k3P1/5p2/4p3/4r1p1/2p3P1/2q1P1PB/5BRK b - - 0 39",
     "k7/8/8/3pP3/8/8/8/K3R3 w - d6 0 2",
+    // every kind of piece that can take an unmoved rook on its corner while the right is still recorded
+    "r3k2r/1K6/8/8/8/8/8/8 w kq - 0 1",
+    "8/8/8/8/8/8/6k1/R3K2R b KQ - 0 1",
+    "r3k2r/8/8/8/8/8/1B4B1/4K3 w kq - 0 1",
+    "4k3/1b4b1/8/8/8/8/8/R3K2R b KQ - 0 1",
+    "r3k2r/8/1N4N1/8/8/8/8/4K3 w kq - 0 1",
+    "4k3/8/8/8/8/1n4n1/8/R3K2R b KQ - 0 1",
+    "r3k2r/8/8/8/8/8/8/Q3K2Q w kq - 0 1",
+    "q3k2q/8/8/8/8/8/8/R3K2R b KQ - 0 1",
+    "r3k2r/1P4P1/8/8/8/8/8/4K3 w kq - 0 1",
+    "4k3/8/8/8/8/8/1p4p1/R3K2R b KQ - 0 1",
 ];
 
 fn mirror_fen(fen: &str) -> String {
@@ -422,4 +433,22 @@ pub fn fen_stream(args: &[String]) {
         }
     }
     writeln!(e.out, "END {}", e.positions).unwrap();
+}
+
+/// every seed must be a position of a legal game: one king each, the side not to move not in check
+pub fn seedcheck() {
+    let mut bad = 0;
+    for fen in SEEDS.iter() {
+        let b = Board::from_fen(fen);
+        let wk = b.get_piece_count(Kind::King(Color::White));
+        let bk = b.get_piece_count(Kind::King(Color::Black));
+        if wk != 1 || bk != 1 || b.is_in_check(b.current_turn.opposite()) {
+            println!("BAD SEED {fen}");
+            bad += 1;
+        }
+    }
+    println!("seedcheck: {} seeds, {} bad", SEEDS.len(), bad);
+    if bad > 0 {
+        std::process::exit(1);
+    }
 }
